@@ -15,6 +15,13 @@ def img(shape, s=0, dtype=float):
     return (R(s).random(shape) + 0.1).astype(dtype)
 
 
+def img_flagged(shape, s=0):
+    """a frame with dead / saturated pixels flagged as nan / inf (arguments must come back byte-identical whatever they contain)"""
+    a = img(shape, s)
+    a.flat[3], a.flat[7], a.flat[-2] = numpy.nan, numpy.inf, -numpy.inf
+    return a
+
+
 def cimg(shape, s=0):
     return R(s).normal(size=shape) + 1j * R(s + 1).normal(size=shape)
 
@@ -53,6 +60,9 @@ RECIPES = {
     "centre_of_gravity": (IMG.centre_of_gravity, lambda: ([img((7, 6))], {"threshold": 0.3})),
     "centre_of_gravity[stack]": (IMG.centre_of_gravity, lambda: ([img((3, 7, 6))], {"threshold": 0.3, "min_threshold": 0.2})),
     "centre_of_gravity[stack,t=0]": (IMG.centre_of_gravity, lambda: ([img((3, 7, 6))], {})),
+    "centre_of_gravity[nan / inf pixels]": (IMG.centre_of_gravity, lambda: ([img_flagged((7, 6))], {})),
+    "centre_of_gravity[stack, nan / inf pixels]": (IMG.centre_of_gravity, lambda: ([img_flagged((3, 7, 6))], {"threshold": 0.3})),
+    "brightest_pixel[float64 stack, twice]": (lambda a, f: (IMG.brightest_pixel(a, f), IMG.brightest_pixel(a, 2 * f))[1], lambda: ([img((3, 6, 6)), 0.2], {})),
     "brightest_pixel": (IMG.brightest_pixel, lambda: ([img((6, 6)), 0.3], {})),
     "brightest_pixel[stack]": (IMG.brightest_pixel, lambda: ([img((3, 6, 6)), 0.3], {})),
     "quadCell": (IMG.quadCell, lambda: ([img((3, 2, 2))], {})),
